@@ -47,8 +47,9 @@ typedef struct { uint8_t f, v; } trans_t;
 #define LH 4
 #define PW 8
 #define PH 7
-#define NPROBE 8
-static const char *PROBEN[NPROBE] = { "as-source-SRC", "as-source-OVER", "as-mask", "as-dest-OVER", "as-dest-ATOP-masked", "as-source-OVER-inside", "as-mask-inside", "as-source-OVER-onto-a2r10g10b10(float pipeline)" };
+#define NPROBE 10
+static const char *PROBEN[NPROBE] = { "as-source-SRC", "as-source-OVER", "as-mask", "as-dest-OVER", "as-dest-ATOP-masked", "as-source-OVER-inside", "as-mask-inside", "as-source-OVER-onto-a2r10g10b10(float pipeline)",
+                                          "as-dest-fill_rectangles-SRC", "as-dest-fill_rectangles-OVER-opaque" };
 
 /* ---------------------------------------------------------------- read-only context (built before the workers fork) */
 static pixman_fixed_t *sep_params, *sep_params_b; static int sep_n;
@@ -290,6 +291,18 @@ static uint64_t ncomposites;
 static void run_probes(obj_t *o, probe_t *pr, int fill_cache)
 {
     memset(pr->len, 0, sizeof pr->len);
+    if (IS_BITS(o->kind)) {
+        /* 8, 9: direct fills, issued before any composite has looked at the image again (the fill entry point takes its own decisions about
+         * accessors, alpha maps and clips); storage and alpha map are read back raw, then restored */
+        static const pixman_color_t half = { 0x4040, 0x2020, 0x6060, 0x8080 }, opaque = { 0x1234, 0xfedc, 0x8000, 0xffff };
+        static const pixman_rectangle16_t rects[2] = { { 1, 0, 3, 3 }, { 0, 2, 5, 2 } };
+        for (int p = 8; p < 10; p++) {
+            pixman_image_fill_rectangles(p == 8 ? PIXMAN_OP_SRC : PIXMAN_OP_OVER, o->img, p == 8 ? &half : &opaque, 2, rects);
+            memcpy(pr->out[p], o->buf, o->bufsz); memcpy(pr->out[p] + o->bufsz, o->abuf, sizeof pristine_a); pr->len[p] = (int)(o->bufsz + sizeof pristine_a);
+            memcpy(o->buf, pristine[o->kind], o->bufsz); memcpy(o->abuf, pristine_a, sizeof pristine_a);
+            ncomposites++;
+        }
+    }
     /* 0: as source, SRC */
     memset(AUX.dbuf, 0, sizeof AUX.dbuf);
     pixman_image_composite32(PIXMAN_OP_SRC, o->img, NULL, AUX.d, -1, -1, 0, 0, 0, 0, PW, PH);
